@@ -902,16 +902,31 @@ void AbstractDOMParser::endElement( const   XMLElementDecl&
         ((XIncludeUtils::isXIFallbackDOMNode(fCurrentNode) &&
           !XMLString::equals(fCurrentParent->getNamespaceURI(), XIncludeUtils::fgXIIIncludeNamespaceURI)))))
     {
-    	XIncludeUtils xiu((XMLErrorReporter *) this);
-	    // process the XInclude node, then update the fCurrentNode with the new content
-	    if(xiu.parseDOMNodeDoingXInclude(fCurrentNode, fDocument, getScanner()->getEntityHandler()))
-	    {
-            fCurrentNode = fCurrentParent->getLastChild();
-            // the include may have been replaced by nothing (empty fallback) while
-            // being the only child: same state as right after the start tag
-            if (fCurrentNode == 0)
-                fCurrentNode = fCurrentParent;
-	    }
+        // An xi:include or xi:fallback below another xi:include (or below a
+        // misplaced xi:fallback) is the business of the outer element: the
+        // content of an xi:fallback is processed only if the fallback is used,
+        // and an xi:include child of an xi:include is a fatal error.
+        // parseDOMNodeDoingXInclude takes care of both when the end tag of the
+        // outermost XInclude element is reached.
+        bool insideInclude = false;
+        for (DOMNode* anc = fCurrentParent; anc != 0 && !insideInclude; anc = anc->getParentNode())
+            insideInclude = (anc->getNodeType() == DOMNode::ELEMENT_NODE
+                             && (XIncludeUtils::isXIIncludeDOMNode(anc)
+                                 || XIncludeUtils::isXIFallbackDOMNode(anc)));
+
+        if (!insideInclude)
+        {
+            XIncludeUtils xiu((XMLErrorReporter *) this);
+            // process the XInclude node, then update the fCurrentNode with the new content
+            if(xiu.parseDOMNodeDoingXInclude(fCurrentNode, fDocument, getScanner()->getEntityHandler()))
+            {
+                fCurrentNode = fCurrentParent->getLastChild();
+                // the include may have been replaced by nothing (empty fallback) while
+                // being the only child: same state as right after the start tag
+                if (fCurrentNode == 0)
+                    fCurrentNode = fCurrentParent;
+            }
+        }
     }
 }
 
